@@ -532,7 +532,8 @@ def arrscl(arr, minval, maxval, arrmin=None, arrmax=None, dtype="f8"):
     if arrmax is None:
         arrmax = output.max()
 
-    if output.size == 1:
+    if output.size == 1 and arrmin == arrmax:
+        # a single element with no range of its own cannot be rescaled
         return output
 
     if arrmin == arrmax:
